@@ -38,7 +38,10 @@ RULE = ('A case = (model class, fitter, basis size k, n_cond, training stack siz
         'competitor, every other ordering must reproduce its theta bit for bit or is judged in '
         'full. One evaluation = one real fitter call judged by the reference (optimality, '
         'constraints) or one perturbed / re-ordered fitter call compared bit for bit, or one '
-        'model-law instance. Non-trivial = the fit is posed (selected present entries outnumber '
+        'model-law instance, or one step of a sequence of fits on ONE model object (model basis, caller\'s '
+        'array and training data bit-identical after the call, prediction = original basis\' theta, '
+        'optimal for the original basis), or one non-negative fit with a basis of distance RDMs of grid '
+        'point configurations judged against the brute-force active-set optimum. Non-trivial = the fit is posed (selected present entries outnumber '
         'the basis RDMs) and every score is defined; distinct = distinct case descriptor.')
 ASSUMPTIONS = [
     'reference measures (mc/ref/measures.py) and reference model (mc/ref/c08_ref.py) are correct',
@@ -70,14 +73,24 @@ BOUNDS = {
               'optimiser fits': '~250 (2 problems x 6 method/sigma_k x {None, one bootstrap vector} '
                                 'x 3 start-menu entries x 3 fitters) + 10 explored draw histories',
               'start menu': 3, 'unselected-entry perturbation': 'every entry singly (closed-form), '
-              'all at once (search-based)'},
+              'all at once (search-based)',
+              'nnls grid family': 'basis = every set of 3 (all 4960) / 4 (every 8th of 35960) distinct '
+                                  'RDMs of 1-d point configurations of 4 conditions on grid {0,1,2} (32 RDMs), '
+                                  'cosine; every 5th triple for corr and cosine_cov; brute-force optimum',
+              'sequences on one model object': 'all ordered pairs of steps (fitter x 6 method/sigma_k + one '
+                                               'step with a pattern selection), weighted / select / '
+                                               'interpolate, model built from RDMs and from a plain array'},
     'thorough': {'n_cond': [4, 5], 'k_basis': [2, 3, 4], 'n_data': [1, 2, 3],
                  'fills': ['positive', 'signed', 'positive mixtures of the basis'],
                  'missing-entry masks': 'all 22 masks of <=2 entries (n_cond=4)',
                  'index vectors n_cond=4': 'all 256 (35 multisets; 13 can pose a fit)',
                  'index multisets n_cond=5': 'all 81 with >=3 distinct (closed-form), every 16th (optimisers)',
                  'optimiser fits': '~7000 + full product of start-menu answers (2 entries x 4 draws)',
-                 'start menu': 3},
+                 'start menu': 3,
+                 'nnls grid family': 'all sets of 3 and of 4 RDMs (4 conditions, grid {0,1,2}) x fills x methods, '
+                                     'every 10th set of 5, 5 conditions (105 RDMs): every 8th triple',
+                 'sequences on one model object': 'ordered pairs (triples for the weighted model, n_cond=4), '
+                                                  'k 2-3, n_cond 4-5'},
 }
 DEADLINE = {'quick': 400, 'thorough': 3000}
 
